@@ -4,7 +4,8 @@
 (*   alive          the grid neutrons that are still in the beam   (layer a, the physics)    *)
 (*   frame          the polygons of the clipping algorithm         (layer b, the procedure)  *)
 (* Actions = the public calls: Chop(c) (Frame.chop / FrameSequence.chop with one chopper),    *)
-(* PropagateTo(d).  `applied` remembers the choppers so far; chopping a whole list in any     *)
+(* PropagateTo(d) (forwards or back towards the source); __getitem__(d) is the operator GetAt *)
+(* of the Defs module (invariant GetAtAgrees).  `applied` remembers the choppers so far; chopping a whole list in any     *)
 (* order and propagating in one step are compared with the step-by-step state by the          *)
 (* invariants OrderIndependent and TwoStepEqualsOneStep.                                       *)
 EXTENDS ChopperCascadeDefs, Randomization, SequencesExt
@@ -18,7 +19,11 @@ CONSTANTS Pulses,     \* set of pulse rectangles
           SimEdges,   \* set of window edges for the random walks
           SimMaxDist,
           L,          \* scale: common multiple of all distances and their differences
-          Bug         \* "none" | "orientation" | "absdist" | "firstonly" | "nosort" | "tiebreak" | "interpsign" | "propabs"
+          Bug         \* "none" | "orientation" | "absdist" | "firstonly" | "nosort" | "tiebreak" | "interpsign" |
+                      \* "propabs" | "breaksorted" | "absdelta" | "getlast"
+
+(* distances (between the choppers) at which __getitem__ is asked; a cfg may override it     *)
+QueryDists == {3, 7}
 
 VARIABLES pulse, frame, alive, applied
 vars == <<pulse, frame, alive, applied>>
@@ -36,8 +41,11 @@ Chop(c) ==
     /\ applied' = Append(applied, c)
     /\ UNCHANGED pulse
 
+(* forwards or back towards the source, but not behind the last chopper (the list `applied`  *)
+(* stays sorted by distance)                                                                  *)
+LastChopDist == IF applied = <<>> THEN 0 ELSE applied[Len(applied)].d
 PropagateTo(d) ==
-    /\ d > frame.d
+    /\ d # frame.d /\ d >= LastChopDist
     /\ frame' = PropagateFrame(frame, d, Bug)
     /\ UNCHANGED <<pulse, alive, applied>>
 
@@ -47,8 +55,11 @@ ChopAny    == Pick = 0 /\ \E c \in Choppers : Chop(c)
 ChopRandom == Pick > 0 /\ \E k \in 1..Pick : \E dd \in {2, 4} :
                  \E nw \in { RandomElement(1..3) } :
                  \E es \in { SetToSortSeq(RandomSubset(2 * nw, SimEdges), <) } :
+                 \E rot \in { RandomElement(0..(nw - 1)) } : \E rev \in { RandomElement({TRUE, FALSE}) } :
+                    \* listed in time order, rotated, or reversed
+                    LET pos(m) == IF rev THEN nw + 1 - m ELSE ((m - 1 + rot) % nw) + 1 IN
                     /\ frame.d + dd <= SimMaxDist
-                    /\ Chop([d |-> frame.d + dd, win |-> [ m \in 1..nw |-> << es[2*m - 1], es[2*m] >> ]])
+                    /\ Chop([d |-> frame.d + dd, win |-> [ m \in 1..nw |-> << es[2*pos(m) - 1], es[2*pos(m)] >> ]])
 Propagate  == \E d \in PropDists : PropagateTo(d)
 
 Next == ChopAny \/ ChopRandom \/ Propagate
@@ -82,11 +93,19 @@ OrderIndependent ==
 TwoStepEqualsOneStep ==
     frame = PropagateFrame(ChopList(Source, applied, L, Bug), frame.d, "none")
 
-(* splitting a propagation at any intermediate distance changes nothing                       *)
+(* splitting a propagation at any other distance - in between, beyond, or back towards the   *)
+(* source - changes nothing                                                                   *)
 SplitPropagation ==
     \A d1 \in PropDists : \A d2 \in PropDists :
-        (frame.d < d1 /\ d1 < d2) =>
+        (d1 # frame.d /\ d2 # d1) =>
             PropagateFrame(PropagateFrame(frame, d1, Bug), d2, Bug) = PropagateFrame(frame, d2, "none")
+
+(* __getitem__(d) on the sequence of frames of the cascade: a grid neutron has reached the    *)
+(* distance d iff it passed the choppers up to d iff it is inside a polygon of that frame      *)
+GetAtAgrees ==
+    \A d \in QueryDists :
+        LET fr == GetAt(FrameSeq(Source, applied, L), d, Bug)
+        IN \A n \in Neutrons(pulse) : Transmitted(n, UpTo(applied, d)) <=> InSomePoly(n, fr, L)
 
 TypeOK == /\ frame.d >= 0 /\ Len(applied) <= MaxChops
           /\ \A k \in 1..Len(frame.polys) : Len(frame.polys[k]) >= 1
